@@ -98,54 +98,48 @@ func litString(l []int) string {
 	return string(b)
 }
 
-// numShape abstracts a number literal to the features the rules can depend on:
-// sign, integer part zero or not, fraction absent / zero / non-zero, exponent letter, sign, leading zero.
-func numShape(lit string) string {
-	var b strings.Builder
-	i := 0
-	if i < len(lit) && lit[i] == '-' {
-		b.WriteByte('-')
-		i++
-	}
-	j := i
-	for j < len(lit) && lit[j] >= '0' && lit[j] <= '9' {
-		j++
-	}
-	if lit[i:j] == "0" {
-		b.WriteByte('0')
-	} else {
-		b.WriteByte('N')
-	}
-	i = j
-	if i < len(lit) && lit[i] == '.' {
-		j = i + 1
-		for j < len(lit) && lit[j] >= '0' && lit[j] <= '9' {
-			j++
-		}
-		if strings.Trim(lit[i+1:j], "0") == "" {
-			b.WriteString(".0")
+// numFeatures abstracts an inadmissible number literal to what the room version 6 rule can depend on:
+// fraction / exponent (and the case of its letter) / magnitude, and whether the value is zero.
+func numFeatures(lit string) string {
+	var f []string
+	mant := lit
+	if i := strings.IndexAny(lit, "eE"); i >= 0 {
+		mant = lit[:i]
+		if lit[i] == 'E' {
+			f = append(f, "exponent-capital-E")
 		} else {
-			b.WriteString(".F")
-		}
-		i = j
-	}
-	if i < len(lit) && (lit[i] == 'e' || lit[i] == 'E') {
-		b.WriteByte(lit[i])
-		i++
-		if i < len(lit) && (lit[i] == '+' || lit[i] == '-') {
-			b.WriteByte(lit[i])
-			i++
-		}
-		switch digits := lit[i:]; {
-		case strings.Trim(digits, "0") == "":
-			b.WriteByte('0')
-		case strings.HasPrefix(digits, "0"):
-			b.WriteString("0N")
-		default:
-			b.WriteByte('N')
+			f = append(f, "exponent")
 		}
 	}
-	return b.String()
+	if strings.Contains(mant, ".") {
+		f = append([]string{"fraction"}, f...)
+	}
+	if len(f) == 0 {
+		f = append(f, "integer-out-of-range")
+	}
+	if strings.Trim(mant, "-0.") == "" {
+		f = append(f, "zero-valued")
+	}
+	return strings.Join(f, "+")
+}
+
+// numPart names the element of a number literal (tokens run[0]..run[1] of toks) at token k.
+func numPart(toks []int, run [2]int, k int) string {
+	part := "mantissa"
+	for i := run[0]; i < k; i++ {
+		if c := toks[i] - 200; c == 'e' || c == 'E' {
+			part = "exponent"
+		}
+	}
+	switch c := byte(toks[k] - 200); {
+	case c == '-' || c == '+':
+		return part + "-sign"
+	case c >= '0' && c <= '9':
+		return part + "-digits"
+	case c == '.':
+		return "decimal-point"
+	}
+	return "exponent-letter"
 }
 
 // cpClass is the escape class of a code point (one class per row of the specification's alphabet).
@@ -200,9 +194,8 @@ func commonPrefix(a, b []byte) int {
 }
 
 // classOf names the abstract element of the expected canonical text at which the observed output departs
-// from it: a number literal, a character of a key / of a string value, or a structural token.  With two
-// admissible canonical texts (exp, alt) the one that agrees longer with the output is the reference; a
-// number is always named by its literal in exp.
+// from it: an element of a number literal, a character class in a key / string value, or a structural token.  With two
+// admissible canonical texts (exp, alt) the one that agrees longer with the output is the reference.
 func classOf(exp, alt []int, got []byte) string {
 	ref := exp
 	d := commonPrefix(renderBytes(exp), got)
@@ -225,11 +218,9 @@ func classOf(exp, alt []int, got []byte) string {
 	t := ref[k]
 	switch {
 	case isNumTok(t):
-		for n, run := range litRuns(ref) {
+		for _, run := range litRuns(ref) {
 			if run[0] <= k && k <= run[1] {
-				if er := litRuns(exp); n < len(er) {
-					return "number:" + numShape(string(renderBytes(exp[er[n][0]:er[n][1]+1])))
-				}
+				return "number/" + numPart(ref, run, k)
 			}
 		}
 		return "number"
@@ -352,10 +343,10 @@ func c01Replay(r *c01Rec, vt *versionTable) hx.Result {
 		case enf && len(r.Bad) > 0:
 			lit := litString(r.Bad[0])
 			if e1 == nil {
-				note(v, "C01/enforced/accepts/number:"+numShape(lit), fmt.Sprintf("CheckCanonicalJSON of an enforcing room version accepts the number %s (not an integer literal within +/-(2^53-1))", lit))
+				note(v, "C01/enforced/accepts/number/"+numFeatures(lit), fmt.Sprintf("CheckCanonicalJSON of an enforcing room version accepts the number %s (not an integer literal within +/-(2^53-1))", lit))
 			}
 			if e2 == nil {
-				note(v, "C01/enforced/accepts/number:"+numShape(lit), fmt.Sprintf("EnforcedCanonicalJSON of an enforcing room version accepts the number %s (not an integer literal within +/-(2^53-1))", lit))
+				note(v, "C01/enforced/accepts/number/"+numFeatures(lit), fmt.Sprintf("EnforcedCanonicalJSON of an enforcing room version accepts the number %s (not an integer literal within +/-(2^53-1))", lit))
 			}
 		case enf && r.Nz:
 			// the literal -0 under enforcement: not constrained by the property; an accepted text must still be canonicalised
